@@ -20,7 +20,7 @@ pub struct C06;
 
 pub fn cfg_to_json(cfg: &TableCfg) -> J {
     json!({
-        "variant": match cfg.variant { Variant::Capture => "capture", Variant::Split => "split", Variant::Multi => "multi" },
+        "variant": match cfg.variant { Variant::Capture => "capture", Variant::Split => "split", Variant::Multi => "multi", Variant::Json => "json" },
         "kmod": match cfg.kmod { KMod::None => "none", KMod::NotNull => "notnull", KMod::Default => "default", KMod::Trim => "trim" },
         "nmod": match cfg.nmod { NMod::None => "none", NMod::NotNull => "notnull", NMod::Default => "default" },
         "order": cfg.order,
@@ -32,6 +32,7 @@ pub fn cfg_from_json(v: &J) -> Option<TableCfg> {
         "capture" => Variant::Capture,
         "split" => Variant::Split,
         "multi" => Variant::Multi,
+        "json" => Variant::Json,
         _ => return None,
     };
     let kmod = match v.get("kmod")?.as_str()? {
